@@ -587,6 +587,12 @@ func (m *monC12) OnTransition(t *Transition) []Violation {
 				bad("accepted/"+cls, "%v accepted (%s)", t.Op, cls)
 			}
 		}
+		if got && a != nil && !t.Pre.Time.Before(a.Start) {
+			// "only while it is still waiting to open": a transaction always runs after its block's hook, and
+			// the hook opens every auction whose start time has come, so an accepted cancel at or after the
+			// start time means the auction was left waiting when it had to open.
+			bad("cancelled-at-or-after-start-time", "%v accepted at %s although the auction's start time %s has come (it should have opened and be uncancellable)", t.Op, t.Pre.Time.UTC().Format(time.RFC3339), a.Start.UTC().Format(time.RFC3339))
+		}
 		if got && a != nil {
 			pa := t.Post.Auction(a.ID)
 			back := ref.Sub(t.Post.BalOf(a.Auctioneer, a.SellDenom), t.Pre.BalOf(a.Auctioneer, a.SellDenom))
